@@ -61,6 +61,7 @@ func c11() {
 			pol = longSpec
 		}
 		cc := &vlib.ChildCase{Policy: pol, Flags: pl.flags, NNP: pl.nnp, Unprivileged: pl.unpriv, Probes: []vlib.Probe{probe}, NNPCase: &vlib.NNPCase{Mode: pl.mode, GoMaxProcs: []int{0, 1, 2, 4}[i%4], CallerLocked: i%5 == 4, PresetOnMain: i%7 == 5}}
+		cc.Env = vlib.RuntimeKnobsGC[(i/3)%len(vlib.RuntimeKnobsGC)]
 		desc := fmt.Sprintf("case %d: mode=%s unprivileged=%v NoNewPrivs=%v flags=%#x strace=%v", i, pl.mode, pl.unpriv, pl.nnp, pl.flags, pl.strace)
 		res, err := vlib.RunChild(bin, "nnp", cc, pl.strace, 60*time.Second)
 		if err != nil || res.TimedOut || res.Line("done") == nil {
